@@ -56,6 +56,12 @@ def cases(tier, seed):
         if i not in seen:
             seen.add(i)
             out.append({"id": i, "fv": fv, "dev": 1 + len(extra), "seed": seed, "tier": tier})
+    # explicit members: a second filter that involves no state (choice and period only)
+    for extra in ({"filt": "dp"}, {"filt": "dp", "e": 1}, {"filt": "dp", "T": 4}):
+        fv = family.normalise(dict(family.BASE, **extra))
+        if e1.fv_id(fv) not in seen:
+            seen.add(e1.fv_id(fv))
+            out.append({"id": e1.fv_id(fv), "fv": fv, "dev": len(extra), "seed": seed, "tier": tier})
     # explicit size letters: many periods, fine state grid
     for extra in ({"T": 6}, {"T": 6, "filt": "grow", "e": 1}, {"wgrid": "fine"}):
         fv = family.normalise(dict(family.BASE, **extra))
